@@ -1,6 +1,6 @@
 (* C11 (totality), part 5: the hypothesis [payload_ok] of destination-side executions is discharged for the
    messages that exist: every cross-shard message emitted by a successful sender-side ESDTNFTTransfer /
-   MultiESDTNFTTransfer carries payloads that decode to tokens with a value and metadata
+   MultiESDTNFTTransfer carries payloads that decode to tokens with a value (and, for ESDTNFTTransfer, metadata)
    ([emitted_payload_ok_nft], [emitted_payload_ok_multi]); deliveries and refunds of such a message
    (Ledger/World.v [deliver_input], [refund_input]: same argument list) are [delivered_input]s. *)
 From Coq Require Import Lia.
@@ -135,7 +135,7 @@ Section Emit.
     rewrite (nth_triples _ _ _ _ Ep) in Hnb by lia. rewrite (nth_triples _ _ _ _ Ep) in Hb by lia.
     assert (Hp : tokgood p) by (eapply Forall_forall; [exact Hgood|eapply nth_error_In; exact Ep]).
     destruct Hp as [Hw Hv]. unfold triple in Hnb, Hb. destruct (t_meta (snd p)) as [m|] eqn:Em; cbn [nth_error] in Hnb, Hb.
-    - inversion Hb; subst b. apply payload_good_enc; [exact Hw|exact Hv|congruence].
+    - inversion Hb; subst b. apply payload_good_valued, payload_good_enc; [exact Hw|exact Hv|congruence].
     - inversion Hnb; subst nb. vm_compute in Hpos. discriminate.
   Qed.
 End Emit.
